@@ -82,7 +82,7 @@ class StateMachine(metaclass=StateMachineMetaclass):
         self._callbacks = CallbacksRegistry()
         self._states_for_instance: Dict[State, State] = {}
 
-        self._listeners: Dict[Any, Any] = {}
+        self._listeners: List[object] = []
         """Listeners that provides attributes to be used as callbacks."""
 
         if self._abstract:
@@ -142,9 +142,9 @@ class StateMachine(metaclass=StateMachineMetaclass):
         self._callbacks = CallbacksRegistry()
         self._states_for_instance: Dict[State, State] = {}
 
-        self._listeners: Dict[Any, Any] = {}
+        self._listeners: List[object] = []
 
-        self._register_callbacks(list(listeners.keys()))
+        self._register_callbacks(list(listeners))
         self._engine = self._get_engine(rtc)
         self._engine.start()
 
@@ -183,8 +183,16 @@ class StateMachine(metaclass=StateMachineMetaclass):
 
         return self
 
+    def _remember_listeners(self, listeners):
+        # by identity: listeners may be value objects that compare equal to each other
+        known = {id(listener) for listener in self._listeners}
+        for listener in listeners:
+            if id(listener) not in known:
+                known.add(id(listener))
+                self._listeners.append(listener)
+
     def _register_callbacks(self, listeners: List[object]):
-        self._listeners.update({listener: None for listener in listeners})
+        self._remember_listeners(listeners)
         self._add_listener(
             Listeners.from_listeners(
                 (
@@ -225,7 +233,7 @@ class StateMachine(metaclass=StateMachineMetaclass):
 
             :ref:`listeners`.
         """
-        self._listeners.update({o: None for o in listeners})
+        self._remember_listeners(listeners)
         return self._add_listener(
             Listeners.from_listeners(Listener.from_obj(o) for o in listeners),
             allowed_references=SPECS_SAFE,
